@@ -272,18 +272,6 @@ theorem expand_exact1 (hst : Stage1 sys) (hc : Coherent (specSys sys u cw) I) :
       have psm := plainL_of_isMapOf hsm ps
       have hbwk : ∀ f ∈ bm, f.user ≠ sys.wk := fun f hf => (pbm f hf).2.1
       have hswk : ∀ f ∈ sm, f.user ≠ sys.wk := fun f hf => (psm f hf).2.1
-      -- the `excl-flip` note is absent
-      have hflip : ∀ fu ∈ bm, ¬ (fu.status = .no ∧ noK sm fu.user = true) := by
-        have hbw : bm.any (fun f => decide (f.user = sys.wk)) = false := by
-          rw [List.any_eq_false]; intro f hf; simpa using hbwk f hf
-        unfold exclNotes at hexn
-        simp only [hbw] at hexn
-        have h1 := (List.append_eq_nil_iff.mp (List.append_eq_nil_iff.mp hexn).1).1
-        have h2 := noteIf_nil h1
-        simp only [Bool.not_false, Bool.true_and] at h2
-        intro fu hfu ⟨hst', hno⟩
-        have := List.any_eq_false.mp h2 fu hfu
-        simp [hst', hno] at this
       -- `u` is not found by the subtracted operand ⇒ the oracle says "does not hold"
       have negD_of : hasK rs.found u = false → I.negD (proj sys.wk u cw s) := by
         intro hnot
@@ -328,7 +316,8 @@ theorem expand_exact1 (hst : Stage1 sys) (hc : Coherent (specSys sys u cw) I) :
         | none => exact hfus
         | some x =>
           obtain ⟨hx, hxu⟩ := sub_some x hfind
-          show x.status = .no
+          show x.status = .no ∧ fu.status = .has
+          refine ⟨?_, hfus⟩
           cases hxs : x.status with
           | no => rfl
           | has =>
@@ -346,7 +335,6 @@ theorem expand_exact1 (hst : Stage1 sys) (hc : Coherent (specSys sys u cw) I) :
         | some x =>
           rw [hfind] at hcase
           obtain ⟨hx, hxu⟩ := sub_some x hfind
-          have hxsm : x ∈ sm := List.mem_of_find?_eq_some hfind
           have hnot : hasK rs.found u = false := by
             cases hh2 : hasK rs.found u with
             | false => rfl
@@ -354,14 +342,8 @@ theorem expand_exact1 (hst : Stage1 sys) (hc : Coherent (specSys sys u cw) I) :
               exfalso
               obtain ⟨g, hg, hgu, hgs⟩ := hasK_iff.mp hh2
               have := clash_false hclashS hx hg (hxu.trans hgu.symm)
-              rw [hcase, hgs] at this; cases this
-          have hfus : fu.status = .has := by
-            cases hfs : fu.status with
-            | has => rfl
-            | no =>
-              exfalso
-              exact hflip fu hfu ⟨hfs, noK_iff.mpr ⟨x, hxsm, hxu.trans hfuu.symm, hcase⟩⟩
-          exact .diff (ab (hasK_iff.mpr ⟨fu, hbm.1 fu hfu, hfuu, hfus⟩)) (negD_of hnot)
+              rw [hcase.1, hgs] at this; cases this
+          exact .diff (ab (hasK_iff.mpr ⟨fu, hbm.1 fu hfu, hfuu, hcase.2⟩)) (negD_of hnot)
       · intro W hWV hcutW hp
         simp only [proj] at hp
         cases hp with
